@@ -7,6 +7,9 @@ from vf.ref.ecref import SECP256K1 as S
 from vf.runner import Acc, filler
 
 PROPERTY = "C14"
+# E6: seq_ops() indices of the operations that are interrupted at every line (vf/seqexplore.interrupted); probes = the whole alphabet
+INTERRUPT_X = [0, 2]
+INTERRUPT_PROBES = None
 CONCUR_FILES = ('bits/ecmath.py', 'bits/utils.py', 'bits/keys.py')
 # (thread a, thread b), warm-up: indices into seq_ops() - the ordinary single-case checks run concurrently (vf/concur.py)
 CONCUR_SCEN = [((0, 6), ()), ((2, 2), (0,)), ((1, 7), (5,)), ((0, 6, 2), ())]   # the last one: three threads
@@ -24,6 +27,7 @@ ASSUMPTIONS = ["E2 small-curve retargeting (see C03)", "OpenSSL via `cryptograph
 OBLIGATIONS = {
     "concurrent_calls": "interleavings of two concurrent calls (single-case checks in two threads, cold and after warm-up calls)",
     "long_history": "operations executed in one long history (every key of a 199-element group, forward / forward / reverse)",
+    "interrupted_calls": "interruption points explored (an earlier call cut short by an asynchronous exception, then ordinary calls)",
     "history_sequences": "operation sequences (non-initial process states) explored",
     "sec1_wrong_len_for_prefix": "right prefix with the other length offered", "sec1_x_ge_p": "x >= p offered",
     "sec1_off_curve": "off-curve x / (x,y) offered", "sec1_hybrid": "hybrid prefix 06/07 offered",
@@ -253,6 +257,9 @@ def run_case(kind, case):
     if kind == "concurcase":
         from vf import concur
         return concur.replay_cases(run_case, PROPERTY, case, CONCUR_FILES)
+    if kind == "interrupted":
+        from vf import seqexplore
+        return seqexplore.replay_interrupted(run_case, case)
     if kind == "seq":
         from vf import seqexplore
         return seqexplore.replay(run_case, case)
@@ -302,6 +309,8 @@ def jobs(tier, seed):
     js += seq_jobs(2, curve=list(T[0]), weight=3)
     from vf.runner import long_jobs
     js += long_jobs(curve=list(T[5]))
+    from vf.runner import interrupt_jobs
+    js += interrupt_jobs(len(INTERRUPT_X), curve=list(T[0]))
     from vf.runner import concur_jobs
     js += concur_jobs(len(CONCUR_SCEN), curve=list(T[0]))
     return js
@@ -316,6 +325,11 @@ def run_job(job):
     if job["part"] == "longhist":
         from vf.runner import run_long_job
         return run_long_job(job, long_ops(job), run_case)
+    if job["part"] == "interrupted":
+        from vf.runner import run_interrupt_job
+        ops = [o for o in seq_ops(dict(job, part="interrupted", shard=[0, 1]))]
+        probes = ops if INTERRUPT_PROBES is None else [ops[i] for i in INTERRUPT_PROBES]
+        return run_interrupt_job(job, [ops[i] for i in INTERRUPT_X], probes, run_case, CONCUR_FILES)
     if job["part"] == "seq":
         from vf.runner import run_seq_job
         return run_seq_job(job, seq_ops(job), run_case, depth=3 if job["tier"] == "quick" else 4)
